@@ -188,8 +188,11 @@ MANIFEST_TEXT['C04'] = {'technique': 'runtime monitoring: PBKDF2 monitor records
 PROPS['C06'] = {
     'level': 'exploration',
     'exhaustive_possible': True,
-    'runs': [{'name': 'asan', 'flavour': 'asan', 'driver': 'drv_c06'}],
-    'require': {'roundtrip.ok': 50000, 'buffers.alignment_mod8.1': 10000, 'buffers.alignment_mod8.7': 10000, 'fields.16bit_rows': 2000, 'fields.8bit_rows': 30, 'load.bytes8-9.recomputed-check.OK': 1000, 'load.bytes8-9.recomputed-check.ERR_UNSUPPORTED': 1000,
+    'runs': [{'name': 'asan', 'flavour': 'asan', 'driver': 'drv_c06'},
+             {'name': 'native', 'flavour': 'asan-native', 'driver': 'drv_c06', 'env': {'PV_SCALE': '15'}, 'shards': 4},
+             # no 32-bit C library exists in this image: the library is built freestanding for i386 and x86-64 and the two programs must print the same transcript
+             {'name': 'ilp32', 'kind': 'ilp32', 'flavour': 'ilp32', 'driver': 'ilp32'}],
+    'require': {'roundtrip.ok': 50000, 'ilp32.transcript_lines_compared': 5000, 'buffers.alignment_mod8.1': 10000, 'buffers.alignment_mod8.7': 10000, 'fields.16bit_rows': 2000, 'fields.8bit_rows': 30, 'load.bytes8-9.recomputed-check.OK': 1000, 'load.bytes8-9.recomputed-check.ERR_UNSUPPORTED': 1000,
                 'load.bytes8-9.recomputed-check.ERR_FORMAT': 1000, 'load.bytes30-31.ERR_CHECKSUM': 1000, 'load.random-with-framing+recomputed-check.OK': 100},
 }
 MANIFEST_TEXT['C06'] = {'technique': 'runtime monitoring: store/load on exact-size heap buffers vs model image codec; exhaustive field sweeps around valid images (ASan/UBSan) + ledger',
